@@ -1,4 +1,11 @@
-/- Model driver for C07 (stub: not built yet). -/
+/-
+Model driver for C07: plain linear trace validator for the Reader pipeline machine
+(`Osmium.Pipeline.Trace.stepLine`: `cfg …`, one fully specified event per line
+`<tid> <tag> <qid> <arg> <payload>`, `end`; one output line per input line: ok / reject / skip /
+final summary).  The scheduling validator used by the checks of C05 and C07 is model_c05
+(lean/Driver/C05.lean); this one replays an already linearised run with `step?` only.
+-/
+import Osmium.Model.Pipeline
 import Driver.Common
 
-def main : IO Unit := pure ()
+def main : IO Unit := Driver.loop Osmium.Pipeline.Trace.stepLine .none
